@@ -359,6 +359,10 @@ def _is_strategy(tier):
                 "q_logits": draw(_logits_strategy(kind, B, size)),
                 "f": draw(_table_strategy(B, S)),
                 "log_scale": draw(st.sampled_from([0.0, 0.0, -1.0, 0.5]))}
+        # the target itself used as the proposal (one and the same distribution object)
+        case["same_object"] = draw(st.sampled_from([False, False, False, True]))
+        if case["same_object"]:
+            case["q_logits"] = case["logits"]
         return case
 
     return build()
@@ -366,7 +370,7 @@ def _is_strategy(tier):
 
 @subcheck("C19", "importance_exact", _is_strategy, 500, 12000,
           doc="ImportanceSamplingEstimator (not self-normalised), proposal Q != target P (both generated, Q dominating), optionally unnormalised P: sum over all Q-tuples of Q(tuple)*estimate and *grad == sum_b P(b) f(b) and its exact gradient w.r.t. P's parameters; gradient w.r.t. Q's parameters is 0 in every call (documented)",
-          required_classes=["proposal_differs", "mc_2", "is_log", "unnormalised"])
+          required_classes=["proposal_differs", "mc_2", "is_log", "unnormalised", "target_object_is_proposal"])
 def _is_check(case):
     import torch
     from pydrobert.torch.estimators import ImportanceSamplingEstimator
@@ -378,7 +382,8 @@ def _is_check(case):
     tab = _tab_tensor(case["f"], dt).requires_grad_()
     points = _points_tensor(kind, size, dt)
     target = _make_dist(kind, theta)
-    proposal = _make_dist(kind, phi)
+    same = bool(case.get("same_object"))
+    proposal = target if same else _make_dist(kind, phi)
     k = case["log_scale"]
 
     class Shifted:
@@ -396,7 +401,7 @@ def _is_check(case):
         v = est()
         val = v.exp() if is_log else v
         grads = torch.autograd.grad(val.sum(), [theta, tab, phi], allow_unused=True, retain_graph=True)
-        gphi = grads[2]
+        gphi = None if same else grads[2]
         if gphi is not None:
             require(bool((gphi == 0).all()), "gradient w.r.t. the proposal's parameters must be 0", gphi.tolist(), 0)
         grads = [torch.zeros_like(p) if g is None else g for g, p in zip(grads[:2], (theta, tab))]
@@ -417,7 +422,9 @@ def _is_check(case):
         classes.append("proposal_differs")
     if k != 0.0:
         classes.append("unnormalised")
-    return Info(nontrivial=_nonconstant(case["f"]) and _nonuniform(case) and case["logits"] != case["q_logits"], classes=classes)
+    if same:
+        classes.append("target_object_is_proposal")
+    return Info(nontrivial=_nonconstant(case["f"]) and _nonuniform(case) and (same or case["logits"] != case["q_logits"]), classes=classes)
 
 
 # ------------------------------------------------------------------ C. EnumerateEstimator
